@@ -18,6 +18,35 @@ NOTES = {
              'get_key / get_keys / new_key on legacy wallets',
     'c20_2': '**missed at first**: needs a partially filled address cache; C20 got getutxos(limit) events, the bal family and the '
              'invariant on the cached address record',
+    'c01_3': '**missed at first**: the per-input key conversion only matters when raw key bytes are signed onto keyless '
+             'inputs of differing compression; C01 got the sub-space routes (how keys reach the inputs x key form x call pattern)',
+    'c02_3': '**missed at first**: version is kept twice (bytes and int) and the tamper alphabet changed both; C02 now also '
+             'changes each copy of a doubly-kept field alone and compares verify() with the reference verdict on raw()',
+    'c03_3': '**missed at first**: stale hash160 after address(compressed=False) on the parent; C03 got call histories on the '
+             'parent object before deriving (sub-space khist)',
+    'c05_3': '**missed at first**: every address string tried was canonical lower case of a known network; C05 got the '
+             'sub-space addrstr (spellings, unknown and neighbour HRPs, all 256 version bytes, invalid neighbours) - this exposed '
+             'two genuine defects (Bech32 network filter, Base58 hash length), repaired',
+    'c06_3': '**missed at first**: no call histories on Block objects; C06 got the sub-space blockhist (both readers, limits, '
+             'serialize, against a cursor model)',
+    'c07_3': '**missed at first**: explicit inputs were only given as tuples; C07 now also passes the Input objects '
+             'select_inputs() returns, including outputs at index 1',
+    'c08_3': '**missed at first**: every funding output had index 0 and its own txid; C08 got funding transactions with several '
+             'outputs and sends with an explicit choice of inputs (tuple and Input-object form)',
+    'c09_3': '**missed at first**: no wallet restored from a private key below the master; C09 got the origin acc_xprv with requests '
+             'that need the master (other witness type, other account) - this exposed a genuine defect (key of account 0 returned '
+             'for account 1), repaired',
+    'c10_3': '**missed at first**: ceremonies used default creation options; C10 now also hands around spends with explicit '
+             'locktime, replace-by-fee and locktime 0 and compares locktime/version/sequences after every import - this exposed two '
+             'genuine defects (dictionary import loses sequences, raw import replaces locktime 0), repaired',
+    'c12_3': '**missed at first**: exports of public-only keys imported in compressed form were not compared; C12 got the sub-space '
+             'pubforms (every import form x accessor order, secrets whose point has leading zero digits in x or y)',
+    'c18_3': '**missed at first**: scripts were only parsed from bytes, never built from command lists; C18 got the sub-spaces build '
+             '(incl. the empty data item) and concat - this exposed two genuine defects (Script.__add__, Script.parse of a stream), '
+             'repaired',
+    'c19_3': '**missed at first**: IF/NOTIF conditions were at most one byte; C19 got conditions wider than a script number',
+    'c20_3': '**missed at first**: every fixture block had one transaction and one request window; C20 got a five-transaction block '
+             'and paging histories - this exposed a genuine defect (cached block page order), repaired',
     'c13': '**missed at first**: C13 verified every triple on a fresh object; it now explores verify-call histories on '
            'one Signature object (sub-space reuse)',
 }
